@@ -133,7 +133,8 @@ class K2Result:
         self.stats = {'calls': 0, 'edits': 0, 'flush': 0, 'compact': 0, 'move': 0, 'reopen': 0, 'reads': 0,
                       'scans': 0, 'iters': 0, 'policy_divergence': 0, 'guarded_steps': 0, 'model_cmds': 0,
                       'multi_output': 0, 'dropped_entries': 0, 'files_cmp': 0, 'inv_checks': 0,
-                      'key_in_two_files': 0}
+                      'key_in_two_files': 0, 'policy_inputs_predicted': 0, 'policy_inputs_unpredicted': 0,
+                      'policy_flush_predicted': 0, 'policy_flush_unpredicted': 0}
     def problem(self, kind, call, **kw):
         d = {'kind': kind, 'call': call}; d.update(kw)
         self.problems.append(d)
@@ -177,6 +178,30 @@ def validate(calls, ops, opts, model_exe, res, keys_known, check_every_layout=Tr
                 d['last'] = m.ask('e_view -')
                 return d
 
+            man_begin = {}        # level -> begin of the rest of this call's manual compaction (m->begin = &tmp_storage)
+
+            def policy_inputs(L, in0, in1, ed):
+                """the observed inputs of a compaction must be among the selections the replica of lcdb's
+                input-selection code (Policy.v, proved to satisfy the guards: Properties_C01b) predicts on
+                the model state for the operation that triggered it; a miss is a policy divergence only"""
+                def preds(r):
+                    nl = lambda x: [int(v) for v in x.split(',')] if x != '.' else []
+                    return [(nl(t.split('/')[0]), nl(t.split('/')[1])) for t in r.split('|') if '/' in t]
+                obs = (sorted(in0), sorted(in1)); hit = False
+                if name in ('crange', 'compact') and (name == 'compact' or int(a[1]) == L):
+                    b0, e0 = (a[2], a[3]) if name == 'crange' else (a[1], a[2])
+                    for p0, p1 in preds(m.ask('p_manual %d %s %s' % (L, man_begin.get(L, b0), e0))):
+                        if (sorted(p0), sorted(p1)) == obs:
+                            hit = True; man_begin[L] = m.ask('p_lastkey %d' % p0[-1]); break
+                if not hit:       # automatic compaction (also interleaved with a manual one): any seed of in0
+                    hit = any((sorted(p0), sorted(p1)) == obs for n in in0
+                              for p0, p1 in preds(m.ask('p_picked %d %d' % (L, n))))
+                key = 'policy_inputs_predicted' if hit else 'policy_inputs_unpredicted'
+                res.stats[key] = res.stats.get(key, 0) + 1
+                if not hit and res.stats[key] <= 3:
+                    res.problem('policy-divergence', call['idx'], op=opline, detail='inputs not predicted by the selection replica',
+                                level=L, in0=in0, in1=in1, edit=ed['raw'][:1500])
+
             def structural(ed):
                 """apply one observed edit to the model"""
                 res.stats['edits'] += 1
@@ -194,6 +219,12 @@ def validate(calls, ops, opts, model_exe, res, keys_known, check_every_layout=Tr
                     res.stats['flush'] += 1
                     r1 = m.ask('e_switch')
                     if adds:
+                        # output level vs the replica of ldb_version_pick_level_for_memtable_output (Policy.v)
+                        fl = 'predicted' if str(adds[0]['level']) in m.ask('p_flushlevels').split(',') else 'unpredicted'
+                        res.stats['policy_flush_' + fl] += 1
+                        if fl == 'unpredicted' and res.stats['policy_flush_unpredicted'] <= 3:
+                            res.problem('policy-divergence', call['idx'], op=opline, detail='flush level not predicted by the selection replica',
+                                        level=adds[0]['level'], edit=ed['raw'][:1500])
                         r2 = m.ask('e_flush %d %d %d' % (adds[0]['level'], adds[0]['num'], ed['vnext']))
                     else:
                         r2 = m.ask('e_flush 0 %d %d' % (ed['vnext'] - 1, ed['vnext']))
@@ -214,6 +245,7 @@ def validate(calls, ops, opts, model_exe, res, keys_known, check_every_layout=Tr
                         ok = False; why = 'edit touches unexpected levels'
                     else:
                         if len(outs) > 1: res.stats['multi_output'] += 1
+                        policy_inputs(L, in0, in1, ed)
                         r = m.ask('e_compact %d %s %s %s %s %d' % (L, ls(in0), ls(in1), ls(cuts), ls(outs), ed['vnext']))
                         ok = (r == 'ok'); why = 'compact=' + r
                 if ok:
